@@ -172,6 +172,7 @@ def run(ctx):
     compact_rule(ctx, syn)
     trunc_rule(ctx, syn)
     slotloop_rule(ctx, syn)
+    tmpsync_rule(ctx, prog)
 
     # ---------------- REIDX
     r_re = ctx.rule("C03.REIDX", "reindex(): every id map is remapped with the gap table of its own store, under the same emptiness guard; gaps()/Handle::reindex agree on the gap convention; indices mentioning a remapped handle type are remapped")
@@ -200,6 +201,31 @@ def run(ctx):
         elif got[0] != gv:
             ctx.report(r_re, "idmap-wrong-gaps:" + want, "reindex() remaps %s with `%s` instead of the gaps of %s (`%s`)" % (want, got[0], src, gv), rx.file, got[1])
     ctx.floor(r_re, len(gapvars), 3, "compacted stores")
+    # no way out of reindex() between the compaction of the stores and the remapping of what refers to them:
+    # an early return is acceptable only under "every gap table is empty"
+    def enclosing_conds(root, target):
+        stack = [(root, [])]
+        while stack:
+            n_, conds = stack.pop()
+            if n_ is target:
+                return conds
+            if not isinstance(n_, dict) or n_.get("k") == "closure":
+                continue
+            if n_.get("k") == "if":
+                stack.append((n_["then"], conds + [unparse(n_["cond"])]))
+                if n_.get("else"):
+                    stack.append((n_["else"], conds + ["!(" + unparse(n_["cond"]) + ")"]))
+                continue
+            from synq import children
+            for c_ in children(n_):
+                stack.append((c_, conds))
+        return None
+    r_re.hit("single-exit")
+    for ret in [n_ for n_ in walk(rx.body, skip_closures=True) if n_.get("k") == "return"]:
+        conds = enclosing_conds(rx.body, ret) or []
+        joined = " && ".join(conds)
+        if not all(("%s.is_empty()" % gv) in joined and ("!%s.is_empty()" % gv) not in joined for gv in gapvars) or "||" in joined:
+            ctx.report(r_re, "early-return", "reindex() can return early (line %s, under `%s`) after the stores have been compacted: whatever is remapped below that point (id maps, reverse indices) keeps the old handles on that path" % (ret.get("l"), joined or "no condition"), rx.file, ret.get("l"))
     # gap convention: gaps() records the handle of the first live item AFTER a gap; Handle::reindex must
     # therefore apply the shift to a handle equal to the gap handle
     hre = syn.fn("reindex", in_trait="Handle")
@@ -519,3 +545,23 @@ def slotloop_rule(ctx, syn):
                 if ex:
                     ctx.report(r, key, "%s loops over the slots %s and leaves the loop (%s) when a slot is empty: after any removal the live items stored behind the gap are not visited" % (fn.qual, it, unparse(ex[0])[:40]), fn.file, ex[0].get("l", lp["l"]))
     ctx.floor(r, n_loops, 10, "slot loops")
+
+
+# ---------------------------------------------------------------------- TMPSYNC
+def tmpsync_rule(ctx, prog):
+    """whether "!A7" is a temporary id (a handle in disguise) or an ordinary public id is a flag of each id map that
+    mirrors Config::strip_temp_ids; when a configuration is attached to the store the flags must follow on every path"""
+    r = ctx.rule("C03.TMPSYNC", "AnnotationStore::propagate_full_config (run whenever a configuration is attached) brings the temporary-id flag of the store's id maps in line with the configuration on every path to its return")
+    try:
+        b = prog.one(r"^annotationstore::AnnotationStore::propagate_full_config$")
+    except Exception as e:
+        ctx.anchor_missing(r, str(e))
+        return
+    ctx.functions_analysed.add(b.id)
+    calls = [bi for bi, t in b.calls() if re.search(r"IdMap::<.*>::set_resolve_temp_ids$|IdMap::set_resolve_temp_ids$", mirq.callee_of(t)[0] or "") and not b.blocks[bi].get("cleanup")]
+    rets = [bi for bi, blk in enumerate(b.blocks) if blk["t"]["t"] == "return"]
+    ctx.floor(r, len(calls), 3, "id maps synchronised by propagate_full_config")
+    for i, x in enumerate(calls):
+        r.hit("sync#%d" % (i + 1), sample={"call_block": x, "line": b.blocks[x]["t"].get("line")})
+        if any(rt == 0 or b.can_reach(0, rt, avoid={x}) for rt in rets) and x != 0:
+            ctx.report(r, "skippable#%d" % (i + 1), "propagate_full_config can return without the set_resolve_temp_ids call of line %s: on that path (e.g. a store without resources and datasets yet) the id map keeps treating \"!A<n>\" as a handle although the configuration says such ids are ordinary public ids (or the reverse), so ids resolve to another item or to none" % b.blocks[x]["t"].get("line"), b.file, b.blocks[x]["t"].get("line"))
